@@ -470,3 +470,28 @@ Proof.
   apply andb_true_iff in E as [E1 E2]. apply N.eqb_eq in E1, E2.
   destruct r, s; simpl in *; subst. exact Hs.
 Qed.
+
+(* ------------------------------------------------------------------ per-shard statements *)
+From Verif Require Wire.
+
+Lemma bad_from_nil {A} (ok : A -> bool) l : forall i,
+  Wire.bad_from ok l i = [] -> forall x, In x l -> ok x = true.
+Proof.
+  induction l as [| a r IH]; intros i H x Hx; [destruct Hx|].
+  simpl in H. destruct (ok a) eqn:E; [| discriminate].
+  destruct Hx as [<- | Hx]; [exact E | eapply IH; eauto].
+Qed.
+
+Definition case_ok (c : list N * list N * program) : bool :=
+  check_closed (fst (fst c)) (snd (fst c)) (snd c).
+
+(* what a shard file's kernel-checked `bad_idx case_ok cases = []` means for each of its programs *)
+Theorem shard_sound cases :
+  Wire.bad_idx case_ok cases = [] ->
+  forall c, In c cases ->
+    (forall o, exec false [] (fst (fst c)) (mod_stmt (snd c)) [] o -> o <> OName) /\
+    (forall f, In f (defs (snd c)) -> forall B o,
+        incl (fparams f) B -> exec true (fdecl f) (snd (fst c)) (fbody f) B o -> o <> OName).
+Proof.
+  intros H c Hc. apply closed_sound. exact (bad_from_nil case_ok cases 0%nat H c Hc).
+Qed.
